@@ -127,7 +127,12 @@ def _kind(dtype):
         return "O"
 
 
+PROXY_TYPES = []  # further scalar proxy classes (e.g. jets) that arrays may hold unchanged
+
+
 def _lift_scalar(x, kind="f"):
+    if PROXY_TYPES and isinstance(x, tuple(PROXY_TYPES)):
+        return x
     if isinstance(x, (SR, SC, SI)):
         if kind == "c":
             return SC.lift(x)
@@ -190,7 +195,7 @@ def _contains_sym(obj):
 
 def _elementwise(name):
     def f(x, *a, **k):
-        if isinstance(x, (SR, SC)):
+        if isinstance(x, (SR, SC)) or (PROXY_TYPES and isinstance(x, tuple(PROXY_TYPES))):
             return getattr(x, name)()
         if isinstance(x, (SI,)):
             return getattr(SR.lift(x), name)()
